@@ -86,16 +86,41 @@ class Check:
                 self.cached = json.load(open(self.cache_file))
             else:
                 self.cached = None
-                work = self.scratch + ".coq"
-                shutil.rmtree(work, ignore_errors=True)
-                shutil.copytree(COQ, work, ignore=shutil.ignore_patterns("*.vo", "*.vok", "*.vos", "*.glob", "*.aux", ".*.aux", "Makefile", "Makefile.conf", ".Makefile.d", "*.d", ".thorough_cache"))
-                sh("coq_makefile -f _CoqProject -o Makefile", cwd=work)
-                rc, out = sh("timeout 6000 make -j16", cwd=work, timeout=6100)
-                cmds.append("clean rebuild in a scratch copy: coq_makefile && make -j16")
-                if rc != 0:
-                    ok = False
-                    self.notes.append("clean coq build failed: " + out[-2000:])
-                    work = COQ
+                # the clean build itself is shared by all properties' thorough runs on the same
+                # sources: one directory per source hash (older ones are removed)
+                work = os.path.join(cache, "build-" + self.src_hash[:24])
+                marker = os.path.join(work, "BUILD_OK")
+                lockdir = work + ".lock"
+                waited = 0
+                while True:
+                    try:
+                        os.mkdir(lockdir)
+                        break
+                    except FileExistsError:      # another thorough check is building it right now
+                        time.sleep(5)
+                        waited += 5
+                        if waited > 7200:
+                            shutil.rmtree(lockdir, ignore_errors=True)
+                try:
+                    if not os.path.exists(marker):
+                        for old in os.listdir(cache):
+                            if old.startswith("build-") and not old.endswith(".lock") and os.path.join(cache, old) != work:
+                                shutil.rmtree(os.path.join(cache, old), ignore_errors=True)
+                        shutil.rmtree(work, ignore_errors=True)
+                        shutil.copytree(COQ, work, ignore=shutil.ignore_patterns("*.vo", "*.vok", "*.vos", "*.glob", "*.aux", ".*.aux", "Makefile", "Makefile.conf", ".Makefile.d", "*.d", ".thorough_cache"))
+                        sh("coq_makefile -f _CoqProject -o Makefile", cwd=work)
+                        rc, out = sh("timeout 6000 make -j16", cwd=work, timeout=6100)
+                        cmds.append("clean rebuild in a scratch copy: coq_makefile && make -j16")
+                        if rc != 0:
+                            ok = False
+                            self.notes.append("clean coq build failed: " + out[-2000:])
+                            work = COQ
+                        else:
+                            open(marker, "w").write(time.strftime("%Y-%m-%dT%H:%M:%S"))
+                    else:
+                        cmds.append("clean rebuild in a scratch copy (shared, built %s for source hash %s)" % (open(marker).read(), self.src_hash[:16]))
+                finally:
+                    shutil.rmtree(lockdir, ignore_errors=True)
         self.coq_work = work
         for pre in pre_files:      # generated files outside _CoqProject (C19)
             rc, out = sh("timeout 900 coqc -R . RT %s" % pre, cwd=work, timeout=1000)
@@ -158,9 +183,7 @@ class Check:
                 elif getattr(self, "cache_file", None) and not pre_files:
                     json.dump({"when": time.strftime("%Y-%m-%dT%H:%M:%S"), "coqchk": out[-1500:]}, open(self.cache_file, "w"))
         self.checker_cmd = " && ".join(cmds)
-        if work != COQ and os.environ.get("VERIF_KEEP_COQ_COPY") != "1":
-            shutil.rmtree(work, ignore_errors=True)
-            self.coq_work = COQ
+        self.coq_work = COQ
         return ok
 
     # -------------------------------------------------------------- scratch
